@@ -93,9 +93,9 @@ func init() {
 			safely(r, "ruleHashInjective", func() { ruleHashInjective(w, r, nt) })
 			safely(r, "ruleArrayDispatch", func() { ruleArrayDispatch(w, r, v2, "v2", "diff", "patch") })
 			safely(r, "ruleObjRecurse", func() { ruleObjRecurse(w, r, v2, "v2") })
-			r.Floor("R-PATHFRESH", 15)
+			r.Floor("R-PATHFRESH", 12)
 			r.Floor("R-KINDS", 5)
-			r.Floor("R-FWD", 50)
+			r.Floor("R-FWD", 32)
 			r.Floor("R-OPTFWD", 10)
 		}})
 
@@ -126,9 +126,9 @@ func init() {
 			safely(r, "ruleChildResult", func() { ruleChildResult(w, r, pf) })
 			safely(r, "ruleArrayDispatch", func() { ruleArrayDispatch(w, r, v2, "v2", "patch") })
 			safely(r, "ruleEqSize", func() { ruleEqSize(w, r, newNodeTypes(w, v2, "v2")) })
-			r.Floor("R-EXPECT", 12)
-			r.Floor("R-FWD", 80)
-			r.Floor("R-PATCHRESULT", 10)
+			r.Floor("R-EXPECT", 9)
+			r.Floor("R-FWD", 48)
+			r.Floor("R-PATCHRESULT", 6)
 		}})
 
 	register(&PropSpec{ID: "C04",
@@ -151,8 +151,8 @@ func init() {
 			safely(r, "ruleNoSharedScratch", func() { ruleNoSharedScratch(w, r, v2, "v2") })
 			safely(r, "ruleTolerance", func() { ruleTolerance(w, r, nt) })
 			safely(r, "ruleOptFwd", func() { ruleOptFwd(w, r, v2, "v2", "Option", equalsSide, nil) })
-			r.Floor("R-TYPEGUARD", 10)
-			r.Floor("R-HASHDOM", 10)
+			r.Floor("R-TYPEGUARD", 8)
+			r.Floor("R-HASHDOM", 8)
 			r.Floor("R-OPTFWD", 15)
 		}})
 
@@ -167,8 +167,8 @@ func init() {
 			safely(r, "ruleMapOrder", func() { ruleMapOrder(w, r, v2, "v2") })
 			safely(r, "ruleNoSharedScratch", func() { ruleNoSharedScratch(w, r, v2, "v2") })
 			safely(r, "ruleNoNondet", func() { ruleNoNondet(w, r, v2) })
-			r.Floor("R-PURE", 45)
-			r.Floor("R-MAPORDER", 15)
+			r.Floor("R-PURE", 30)
+			r.Floor("R-MAPORDER", 10)
 		}})
 }
 
@@ -245,9 +245,9 @@ func init() {
 		Assumptions: commonAssumptions,
 		Run: func(w *World, r *Report) {
 			safely(r, "runCLI", func() { runCLI(w, r, "exit", "havediff", "output", "flags", "inputs", "modes", "plumbing", "optfwd") })
-			r.Floor("R-CLI/E", 30)
+			r.Floor("R-CLI/E", 20)
 			r.Floor("R-CLI/E3", 40)
-			r.Floor("R-CLI/O", 18)
+			r.Floor("R-CLI/O", 12)
 			r.Floor("R-CLI/M", 40)
 		}})
 }
@@ -275,7 +275,7 @@ func init() {
 				ruleHashDom(w, r, nt, map[string]bool{"jsonString": true, "jsonNumber": true, "jsonBool": true, "jsonNull": true, "jsonList": true, "jsonObject": true})
 			})
 			safely(r, "runCLI", func() { runCLI(w, r, "exit", "havediff", "optfwd") })
-			r.Floor("R-OPTFWD", 40)
+			r.Floor("R-OPTFWD", 30)
 		}})
 }
 
@@ -333,8 +333,8 @@ func init() {
 			safely(r, "ruleHashCover", func() { ruleHashCover(w, r, nt) })
 			safely(r, "ruleProv", func() { ruleProv(w, r, v2, "v2", v2Prov) })
 			safely(r, "rulePathFresh", func() { rulePathFresh(w, r, v2, "v2") })
-			r.Floor("R-PROV", 20)
-			r.Floor("R-PATHFRESH", 15)
+			r.Floor("R-PROV", 16)
+			r.Floor("R-PATHFRESH", 12)
 		}})
 }
 
@@ -355,7 +355,7 @@ func init() {
 			safely(r, "ruleRawTypes", func() { ruleRawTypes(w, r, v2) })
 			safely(r, "ruleDiffReaders", func() { ruleDiffReaders(w, r, v2, "v2", "Diff") })
 			safely(r, "ruleScanErr", func() { ruleScanErr(w, r, v2, "v2") })
-			r.Floor("R-AUTOMATON", 50)
+			r.Floor("R-AUTOMATON", 40)
 			r.Floor("R-PATHTAB", 6)
 		}})
 }
@@ -379,8 +379,8 @@ func init() {
 					(o.Rule == "R-CLI/M" && (strings.Contains(o.Key, "json2yaml") || strings.Contains(o.Key, "yaml2json")))
 			}, func(sub *Report) { runCLI(w, sub, "output", "modes") })
 			safely(r, "ruleRawInput", func() { ruleRawInput(w, r, v2, "v2") })
-			r.Floor("R-YAMLTYPES", 12)
-			r.Floor("R-CODEC", 20)
+			r.Floor("R-YAMLTYPES", 10)
+			r.Floor("R-CODEC", 14)
 		}})
 }
 
@@ -436,7 +436,7 @@ func init() {
 			safely(r, "ruleFWD", func() { ruleFWD(w, r, pf, []string{"before", "after"}) })
 			safely(r, "ruleExpect", func() { ruleExpect(w, r, pf, listModePatch) })
 			safely(r, "rulePureEntries", func() { rulePureEntries(w, r, v2, pf, map[string]bool{"Diff.RenderPatch": true}) })
-			r.Floor("R-FWD", 25)
+			r.Floor("R-FWD", 16)
 		}})
 	register(&PropSpec{ID: "C11",
 		Explain:     "Decides structural necessary conditions of the RFC 7386 rendering: (R-MERGEHUNK, diff side) every hunk a diff function builds on a path that is control-dependent on merge strategy carries Metadata.Merge and removes nothing; RenderMerge refuses hunks without the flag, turns every void addition into null in the diff it patches into the empty (void) document, and renders that document. (R-VOIDARG) no nested diff is handed the void marker as the other side (nodeList(void) is empty, the deletion would be lost) and the deletion marker is a literal Add: [void].",
@@ -527,8 +527,8 @@ func init() {
 			safely(r, "ruleNoSharedScratch", func() { ruleNoSharedScratch(w, r, lib, "lib") })
 			safely(r, "ruleEqSize", func() { ruleEqSize(w, r, newNodeTypes(w, lib, "lib")) })
 			safely(r, "ruleScanErr", func() { ruleScanErr(w, r, lib, "lib") })
-			r.Floor("R-FWD(lib)", 60)
-			r.Floor("R-OPTFWD(lib)", 80)
+			r.Floor("R-FWD(lib)", 40)
+			r.Floor("R-OPTFWD(lib)", 60)
 		}})
 	register(&PropSpec{ID: "C18",
 		Explain:     "Decides narrow structural necessary conditions of the v1 RFC renderings and readers: (R-PTR(lib)) writePointer writes a token for every path element or fails, keys reach the pointer only through jsonpointer.Escape; (R-PAIR(lib)) only test/remove/add ops, every remove right after a test of the same pointer and value; (R-PATHFRESH(lib)) hunks built by the readers own their paths; (R-JSONCODEC(lib)) one JSON encoding. (R-DELETEVOID(lib)) the object patch deletes a member only for a void result — v1 RenderMerge patches the empty document with nulls; (R-SCANERR(lib)).",
